@@ -1,6 +1,7 @@
 #!/usr/bin/env python3
 """C19 harness: runs operation sequences on /repo's AggregationDataTypes classes.
-stdin: one sequence per line:  N<K>:<b1>:<b2>:<u>:<o>  then ops  S<i>:<v> G<i> A<v> Qs Qh Ql QH QL Qu
+stdin: one sequence per line:  N<K>:<b1>:<b2>:<u>:<o>[:<E>]  then ops   (E: elements are aggregates of kind E of INTEGER;
+  then a value token stands for one inner aggregate, s for one of another kind, t for one of the right kind OF STRING)  S<i>:<v> G<i> A<v> Qs Qh Ql QH QL Qu
   K in A L B S ; b2 may be 'n' (None) ; v in 1 2 3 s (s = a STRING: wrong base type)
 stdout: per line the results separated by ' | ':  ok:<repr> or raise:<ExceptionClass>"""
 import sys
@@ -11,8 +12,36 @@ from stepcode.AggregationDataTypes import ARRAY, LIST, BAG, SET   # noqa
 from stepcode.SimpleDataTypes import INTEGER, STRING              # noqa
 
 
+KINDS = {"A": ARRAY, "L": LIST, "B": BAG, "S": SET}
+ELEM = ["i"]          # element kind of the aggregate under test: i = INTEGER, A/L/B/S = an aggregate of INTEGER of that kind
+INNER = {}            # token -> the inner aggregate that stands for it (one object per token: equal iff same token)
+
+
+def inner(kind, base, content):
+    a = KINDS[kind](1, 3, base)
+    if content is not None:
+        if kind in "AL":
+            a[1] = base(content)
+        else:
+            a.add(base(content))
+    return a
+
+
+def elem_type():
+    return INTEGER if ELEM[0] == "i" else inner(ELEM[0], INTEGER, None)
+
+
 def val(tok):
-    return STRING("a") if tok == "s" else INTEGER(int(tok))
+    if ELEM[0] == "i":
+        return STRING("a") if tok == "s" else INTEGER(int(tok))
+    if tok not in INNER:
+        if tok == "s":        # an aggregate of another kind
+            INNER[tok] = inner("ALBS"[("ALBS".index(ELEM[0]) + 1) % 4], INTEGER, 7)
+        elif tok == "t":      # the right kind of aggregate, of another base type
+            INNER[tok] = inner(ELEM[0], STRING, "a")
+        else:
+            INNER[tok] = inner(ELEM[0], INTEGER, int(tok))
+    return INNER[tok]
 
 
 def show(x):
@@ -20,6 +49,9 @@ def show(x):
         return "None"
     if isinstance(x, STRING):
         return "str"
+    for tok_, obj_ in INNER.items():
+        if x is obj_:
+            return "int:" + tok_ if tok_ not in "st" else "str"
     if isinstance(x, bool):
         return "True" if x else "False"
     if isinstance(x, int):
@@ -43,17 +75,20 @@ def main():
             try:
                 c = t[0]
                 if c == "N":
-                    k, b1, b2, u, o = t[1:].split(":")
+                    f = t[1:].split(":")
+                    k, b1, b2, u, o = f[:5]
+                    ELEM[0] = f[5] if len(f) > 5 else "i"
+                    INNER.clear()
                     b1 = int(b1)
                     b2 = None if b2 == "n" else int(b2)
                     if k == "A":
-                        obj = ARRAY(b1, b2, INTEGER, UNIQUE=(u == "1"), OPTIONAL=(o == "1"))
+                        obj = ARRAY(b1, b2, elem_type(), UNIQUE=(u == "1"), OPTIONAL=(o == "1"))
                     elif k == "L":
-                        obj = LIST(b1, b2, INTEGER, UNIQUE=(u == "1"))
+                        obj = LIST(b1, b2, elem_type(), UNIQUE=(u == "1"))
                     elif k == "B":
-                        obj = BAG(b1, b2, INTEGER)
+                        obj = BAG(b1, b2, elem_type())
                     else:
-                        obj = SET(b1, b2, INTEGER)
+                        obj = SET(b1, b2, elem_type())
                     r = None
                 elif obj is None:
                     out.append("skip")
